@@ -453,6 +453,12 @@ def transport_classes():
                     await asyncio.sleep(cs[1])
             self.world.ev(self.side, 'transport_connect_end', cx=self.cx)
 
+        async def _slow_close(self):
+            # closing a real transport takes a while (TLS shutdown, websocket close handshake): close_ticks loop iterations
+            for _ in range(getattr(self, 'close_ticks', 0) or 0):
+                await asyncio.sleep(0)
+            self.world.ev(self.side, 'transport_close_done', cx=self.cx)
+
         async def _tap_gen(self, gen):
             async for frame in gen:
                 s = snap_frame(frame)
@@ -493,6 +499,7 @@ def transport_classes():
             self.closed_calls += 1
             self.world.ev(self.side, 'transport_close_call', cx=self.cx)
             await TransportTCP.close(self)
+            await self._slow_close()
 
     class TapMsg(TapMixin, AbstractMessagingTransport):
         """Does what the aiohttp/quart/websockets transports do: one serialized frame per message out, one
@@ -550,6 +557,7 @@ def transport_classes():
                 if self.out_link.auto:
                     self.out_link.schedule_auto()
                 self.unblock()
+            await self._slow_close()
 
         # sink interface for the incoming link
         async def feed_message(self, msg):
